@@ -507,7 +507,15 @@ def tie(ctx):
             ctx.count("pos:custom-reserves" if custom else "pos:standard-reserves")
             tps = {}
             for i, sym, k in usable:
-                o, tq = tpos_out(sym, pos)
+                if (i + j) % 2:
+                    # the same group element as a FRESH array (what a caller gets from a product or an
+                    # inverse of symmetries): a temporary, dropped as soon as the call returns
+                    import numpy as _np
+
+                    o, tq = tpos_out(_np.array(sym, copy=True), pos)
+                    ctx.count("tpos:symmetry-passed-as-a-fresh-array")
+                else:
+                    o, tq = tpos_out(sym, pos)
                 tps[i] = tq
                 lines.append("symmetry tpos %d %s" % (k, ps))
                 impl_out.append(o)
